@@ -244,6 +244,19 @@ func Run(c Case, h Hooks) Result {
 				case op.Thread%nthreads != t:
 				case op.Kind == "sleep":
 					time.Sleep(time.Duration(op.Us) * time.Microsecond)
+				case op.Kind == "newconfig":
+					client := clients[op.Mgr%len(clients)]
+					servers := cfgServers(c, op.Call.Config)
+					_ = client.NewConfigUnrecordedWithNew(servers, op.Us%2 == 1, op.Us >= 2)
+				case op.Kind == "readers":
+					client := clients[op.Mgr%len(clients)]
+					for k := 0; k < 1+op.Us; k++ {
+						client.ReadTopology()
+					}
+				case op.Kind == "stop":
+					cl.Stop(op.Call.Node % c.N)
+				case op.Kind == "start":
+					cl.Start(op.Call.Node % c.N)
 				case op.Kind == "close":
 					client := clients[op.Mgr%len(clients)]
 					k := op.Us
